@@ -242,6 +242,15 @@ func (op Op) expr() string {
 		return "(keys " + a + ")"
 	case "get-k":
 		return `(get ` + a + ` "k")`
+	case "aref":
+		return "(aref " + a + " " + i + ")"
+	case "first":
+		return "(first " + a + ")"
+	case "second":
+		return "(second " + a + ")"
+	}
+	if p := producerOf(op.K); p != nil {
+		return p.src
 	}
 	panic("harness: unknown op " + op.K)
 }
@@ -528,8 +537,17 @@ func apply(w0 *world, op Op) (outs []*world, expectErr bool) {
 		}
 		out := append(append(append([]val(nil), c[:pos]...), vint(2)), c[pos:]...)
 		return one(w, w.newSeq(seqKindOf(op.K[:len(op.K)-1]), out))
-	case "nth":
+	case "nth", "aref":
 		return one(w, w.cells(A)[op.I])
+	case "first", "second":
+		i := 0
+		if op.K == "second" {
+			i = 1
+		}
+		if i < A.ln {
+			return one(w, w.cells(A)[i])
+		}
+		return one(w, w.newNil())
 	case "alias", "to-bytes":
 		return one(w, av)
 
@@ -636,6 +654,9 @@ func apply(w0 *world, op Op) (outs []*world, expectErr bool) {
 			}
 		}
 		return one(w, w.newSeq(kList, c))
+	}
+	if p := producerOf(op.K); p != nil {
+		return one(w, p.build(w))
 	}
 	panic("harness: no meaning for op " + op.K)
 }
@@ -913,7 +934,7 @@ func (op Op) isConstructor() bool { return op.A < 0 }
 // name, a stored element, bytes "returned as-is").
 func (op Op) returnsArgument() bool {
 	switch op.K {
-	case "alias", "to-bytes", "nth", "get", "get-k":
+	case "alias", "to-bytes", "nth", "get", "get-k", "aref", "first", "second":
 		return true
 	}
 	return false
@@ -996,7 +1017,21 @@ func describeOperand(w *world, op Op) string {
 	if o.sealed {
 		s = "literal-" + s
 	}
+	if o.json {
+		s = "json-" + s
+	}
 	return s
+}
+
+// usesSymbolKey: the operation names a map key spelled as a symbol.
+func (op Op) usesSymbolKey() bool {
+	switch op.K {
+	case "assoc", "assoc!", "dissoc", "dissoc!", "get", "assoc-same":
+		return mapKeys[op.I].sym
+	case "assoc!-store", "map-of":
+		return true
+	}
+	return false
 }
 
 var _ = fmt.Sprint
